@@ -38,6 +38,12 @@ class VLoop(asyncio.SelectorEventLoop):
             h._scheduled = False
         return self._scheduled[0]._when if self._scheduled else None
 
+    def nudge(self, fraction):
+        """let a fraction of the time to the next timer pass (no timer becomes due)"""
+        w = self.next_timer()
+        if w is not None and w > self._vt and 0 < fraction < 1:
+            self._vt += fraction * (w - self._vt)
+
     def advance_to_next(self):
         w = self.next_timer()
         if w is None:
